@@ -152,7 +152,7 @@ pub fn run(ctx: &mut Ctx) {
     ctx.exhaustive.insert("all 16384 (method,class) pairs".into(), ctx.only.is_none());
 
     // (b) every kind x boundary value classes
-    let per_kind = ctx.n(3_000, 60_000);
+    let per_kind = ctx.n(3_000, 200_000);
     ctx.cases("kinds", per_kind * gen::ORDINARY_KINDS as u64, |ctx, case, rng| {
         let kind = (case % gen::ORDINARY_KINDS as u64) as usize;
         let a = gen::attr_of_kind(rng, kind, &cfg);
@@ -181,7 +181,7 @@ pub fn run(ctx: &mut Ctx) {
 
     // (c) random sequences of attributes
     let max_attrs = if ctx.quick() { 12 } else { 40 };
-    let n = ctx.n(160_000, 3_000_000);
+    let n = ctx.n(160_000, 12_000_000);
     ctx.cases("msgs", n, |ctx, case, rng| {
         let m = gen::message(rng, max_attrs, &cfg);
         for w in m.attrs.windows(2) {
@@ -199,7 +199,7 @@ pub fn run(ctx: &mut Ctx) {
     });
 
     // (d) large values: blobs up to 60 KiB (sizes near the 16-bit limit are C14's business)
-    let n = ctx.n(200, 4_000);
+    let n = ctx.n(200, 12_000);
     ctx.cases("large", n, |ctx, _case, rng| {
         let big = GenCfg { max_blob: 60_000 };
         let k = *rng.pick(&[20usize, 29, 32]);
